@@ -294,6 +294,7 @@ func (ex *Exec) runPath(h *Harness, prefix []int32) (reason string) {
 	ex.known = map[*Term]bool{}
 	ex.rep = map[*Term]*Term{}
 	ex.substMemo = map[*Term]*Term{}
+	ex.plainVars = nil
 	ex.dirty = false
 	ex.model = nil
 	ex.syncedC, ex.syncedZ = false, false
@@ -313,6 +314,7 @@ func (ex *Exec) runPath(h *Harness, prefix []int32) (reason string) {
 	ex.bounds = map[string]int64{}
 	ex.mapOrder = mapInsertion
 	ex.happs = nil
+	ex.rfcapps = nil
 	ex.mon = monitors{}
 	ex.newWork = nil
 	ex.pathSym = false
